@@ -10,7 +10,7 @@ RULE = ("documents = abidw output of the seed programs. struct: element {delete,
         "other enum token, id of another type, undefined id, own id, duplicate id} at every attribute; version in {absent, '', x, 2, 2., .1, 99.0, 1.0}. byte: {delete, <, &, ', NUL, 0xFF} at every "
         "offset (strided in quick). Each mutant is read by abilint (file), abilint --stdin, abidiff (mutant, original) and abidiff (original, mutant). Oracle: the process ends by exit - no signal, "
         "no assertion abort, no sanitizer report, no time-out. Non-trivial: every mutant (it differs from the valid document).")
-TEXT = "Deviation bound 1 from a valid document is completed on 3 (quick) / all 7 (thorough) seed documents; deviation 2 (pairs of attribute mutations) on one document in the thorough tier."
+TEXT = "Deviation bound 1 from a valid document is completed on 2 (quick) / all 7 (thorough) seed documents; deviation 2 (pairs of attribute mutations) on one document in the thorough tier."
 NOTE = ("The quick tier uses the plain build, so it sees signals, aborts and hangs but not silent out-of-bounds reads; the thorough tier repeats the catalogue on the ASan+UBSan build. "
         "Crashes whose innermost frame is inside libxml2 are tallied as third-party.")
 ASSUMPTIONS = ["mutations of abidw-generated documents are representative of malformed ABIXML"]
@@ -25,7 +25,7 @@ def _v(ctx):
 def prepare(ctx):
     toolrun.tool(_v(ctx), "abilint")
     toolrun.tool("plain", "abidw")
-    names = ["basic", "nested", "cxx_anon"] if ctx.quick else [n for n in seeds.all_names() if n != "big"]
+    names = ["basic", "cxx_anon"] if ctx.quick else [n for n in seeds.all_names() if n != "big"]
     for n in names:
         lib = seeds.build(n)
         rc, out, err = toolrun.run_tool(ctx, "plain", "abidw", ["--no-corpus-path", lib], spawn=True)
@@ -47,7 +47,11 @@ def stages(ctx):
     for d in _docs:
         n = len(_muts(d))
         st1 += [{"kind": "struct", "doc": d, "lo": i, "hi": min(i + 100, n)} for i in range(0, n, 100)]
-        st1 += [{"kind": "byte", "doc": d, "stride": 29 if ctx.quick else 7, "offset": o} for o in range(0, 29 if ctx.quick else 7, 7 if ctx.quick else 1)]
+        if ctx.quick:
+            if d == "basic":
+                st1 += [{"kind": "byte", "doc": d, "stride": 29, "offset": o} for o in (0, 7)]
+        else:
+            st1 += [{"kind": "byte", "doc": d, "stride": 7, "offset": o} for o in range(7)]
     st = [("single-mutations", st1)]
     if not ctx.quick:
         st.append(("attribute-mutation-pairs(basic)", [{"kind": "pairs", "doc": "basic", "lo": i, "hi": i + 20} for i in range(0, 400, 20)]))
@@ -73,6 +77,8 @@ def _run_all(ctx, e, u, op, site, fails, outs):
             c2 = toolrun.locate(ctx, tool, args, stdin=stdin)
             if c2:
                 where, owner = c2[1], c2[2]
+                if c2[0] == "asan:stack-overflow":
+                    outcome = "segv"
         outs[outcome] = outs.get(outcome, 0) + 1
         if owner == "third_party":
             outs["third-party"] = outs.get("third-party", 0) + 1
